@@ -183,52 +183,75 @@ def run(ctx):
     if init is None or mg is None or st is None:
         raise AnalysisError('anchor vanished: LatexMathParserInfo.initialize/make_group_node/stop_token_condition')
     # R10a
-    upd = [c for c in iter_own(init) if isinstance(c, ast.Call)
-           and call_name(c) == 'get_updated_parsing_state_from_delta']
-    ok = False
-    why = 'no get_updated_parsing_state_from_delta call'
-    if upd:
-        c = upd[0]
-        base = unparse(c.args[0]) if c.args else ''
-        delta = c.args[1] if len(c.args) > 1 else None
+    TR_ = ('self.math_mode_delimiter', 'self.math_parsing_state', 'self.contents_parsing_state',
+           'self.math_mode_type')
+    ends = [c for c in symex.Walker(want_exits=True, track_attrs=TR_).run_block(init.body)
+            if c.kind in ('end', 'return')]
+    why = None
+    if not ends:
+        why = 'initialize() has no normal exit'
+    for cs in ends:
+        mps = symex.resolve(cs.env.get('self.math_parsing_state') or ast.Constant(value=None), cs.env)
+        if not (isinstance(mps, ast.Call) and call_name(mps) == 'get_updated_parsing_state_from_delta'
+                and len(mps.args) >= 2):
+            why = 'self.math_parsing_state is %s' % short(mps)
+            break
+        base, delta = mps.args[0], symex.resolve(mps.args[1], cs.env)
         dl = kwarg(delta, 'math_mode_delimiter') if isinstance(delta, ast.Call) else None
-        dl_src = unparse(dl) if dl is not None else ''
-        defs = {unparse(s.targets[0]): unparse(s.value) for s in iter_own(init) if isinstance(s, ast.Assign)}
-        dl_root = defs.get(dl_src, dl_src)
-        ok = base == 'self.parsing_state' and isinstance(delta, ast.Call) and \
-            call_name(delta) == 'ParsingStateDeltaEnterMathMode' and dl_root == 'self.first_token.arg'
-        why = 'base=%s delta=%s delimiter=%s' % (base, short(delta) if delta is not None else None, dl_root)
-    ctx.decide('R10a', ok, mm, upd[0] if upd else init,
+        if unparse(base) != 'self.parsing_state':
+            why = 'the state updated is %s, not the outer state' % short(base)
+        elif not (isinstance(delta, ast.Call) and call_name(delta) == 'ParsingStateDeltaEnterMathMode'):
+            why = 'the delta applied is %s, not EnterMathMode' % short(delta)
+        elif dl is None or unparse(dl) != 'self.first_token.arg':
+            why = 'the delimiter recorded is %s, not the opening token' % (short(dl) if dl is not None else 'missing')
+    ctx.decide('R10a', why is None, mm, init,
                'contents state = outer state + EnterMathMode(delimiter = opening token)',
                'the math contents state is not the outer state updated by '
                'EnterMathMode(math_mode_delimiter=<opening token>) (%s): the wrong closing delimiter '
                'is expected / the mode is not entered' % why, construct='LatexMathParserInfo.initialize')
-    defs = {unparse(s.targets[0]): unparse(s.value) for s in iter_own(init) if isinstance(s, ast.Assign)}
-    ok = defs.get('self.contents_parsing_state') == 'self.math_parsing_state' and \
-        defs.get('self.math_mode_type') == 'self.first_token.tok'
-    ctx.decide('R10a', ok, mm, init, 'contents parsed in the math state; kind remembered from the token',
-               'initialize() does not parse the contents in the math state / remember the token kind',
-               construct='LatexMathParserInfo.initialize: contents state')
-    mk = [c for c in iter_own(mg) if isinstance(c, ast.Call) and call_name(c) == 'make_node']
-    ok = False
-    if mk:
-        k = mk[0]
-        ok = unparse(kwarg(k, 'parsing_state') or ast.Constant(0)) == 'self.parsing_state' and \
-            unparse(kwarg(k, 'delimiters') or ast.Constant(0)) == 'self.parsed_delimiters' and \
-            unparse(kwarg(k, 'displaytype') or ast.Constant(0)) == 'displaytype'
-    ctx.decide('R10a', ok, mm, mk[0] if mk else mg,
-               'math node: outer state, parsed delimiters, display type',
-               'the math node does not record the outer parsing state, its delimiters and display type',
-               construct='math node fields')
+    why = None
+    for cs in ends:
+        cps, mps = cs.env.get('self.contents_parsing_state'), cs.env.get('self.math_parsing_state')
+        mt = cs.env.get('self.math_mode_type')
+        if cps is None or mps is None or unparse(cps) != unparse(mps):
+            why = 'the contents are parsed in %s' % (short(cps) if cps is not None else 'an unset state')
+        elif mt is None or unparse(mt) != 'self.first_token.tok':
+            why = 'the token kind remembered is %s' % (short(mt) if mt is not None else 'not set')
+    ctx.decide('R10a', why is None and bool(ends), mm, init,
+               'contents parsed in the math state; kind remembered from the token',
+               'initialize(): %s' % why, construct='LatexMathParserInfo.initialize: contents state')
+    mkc = symex.sink_cases(mg, lambda c: call_name(c) == 'make_node')
+    why = None if mkc else 'no node is built'
     dt = {}
-    for i in [i for i in iter_own(mg) if isinstance(i, ast.If)]:
-        t = i.test
-        if isinstance(t, ast.Compare) and unparse(t.left) == 'self.math_mode_type' and \
-                isinstance(t.comparators[0], ast.Constant):
-            for s in i.body:
-                if isinstance(s, ast.Assign) and unparse(s.targets[0]) == 'displaytype' and \
-                        isinstance(s.value, ast.Constant):
-                    dt[t.comparators[0].value] = s.value.value
+    for cs in mkc:
+        k = cs.sub
+        if unparse(kwarg(k, 'parsing_state') or ast.Constant(0)) != 'self.parsing_state':
+            why = 'the math node records the state %s, not the outer state' % short(kwarg(k, 'parsing_state'))
+        elif unparse(kwarg(k, 'delimiters') or ast.Constant(0)) != 'self.parsed_delimiters':
+            why = 'the math node records the delimiters %s' % short(kwarg(k, 'delimiters'))
+        d_ = kwarg(k, 'displaytype')
+        d_ = symex.resolve(d_, cs.env) if d_ is not None else None
+        if isinstance(d_, ast.Constant):
+            for t_, pol in cs.conds:
+                for a, ap in symex._atoms(t_, pol):
+                    if ap and isinstance(a, ast.Compare) and unparse(a.left) == 'self.math_mode_type' and \
+                            isinstance(a.ops[0], ast.Eq) and isinstance(a.comparators[0], ast.Constant):
+                        dt[a.comparators[0].value] = d_.value
+        elif isinstance(d_, ast.Call) and call_name(d_) == 'get' and d_.args and \
+                unparse(d_.args[0]) == 'self.math_mode_type' and isinstance(call_recv(d_), ast.Name):
+            try:
+                lit = mm.toplevel_assign(call_recv(d_).id)
+            except AnalysisError:
+                lit = None
+            if isinstance(lit, ast.Dict):
+                for kk, vv in zip(lit.keys, lit.values):
+                    if isinstance(kk, ast.Constant) and isinstance(vv, ast.Constant):
+                        dt[kk.value] = vv.value
+        elif d_ is None:
+            why = 'the math node has no display type'
+    ctx.decide('R10a', why is None, mm, mkc[0].node if mkc else mg,
+               'math node: outer state, parsed delimiters, display type',
+               'make_group_node_and_parsing_state_delta: %s' % why, construct='math node fields')
     ok = dt.get('mathmode_inline') == 'inline' and dt.get('mathmode_display') == 'display'
     ctx.decide('R10a', ok, mm, mg, 'mathmode_inline -> inline, mathmode_display -> display',
                'display type mapping is %s' % dt, construct='display type mapping')
@@ -255,9 +278,15 @@ def run(ctx):
         f = hm.get(ev)
         got = {}
         if f is not None:
-            for c in iter_own(f):
-                if isinstance(c, ast.Call) and call_name(c) == 'dict':
-                    got = {k.arg: unparse(k.value) for k in c.keywords}
+            for cs in symex.return_cases(f):
+                v = symex.resolve(cs.sub, cs.env)
+                sa = kwarg(v, 'set_attributes') if isinstance(v, ast.Call) else None
+                sa = symex.resolve(sa, cs.env) if sa is not None else None
+                if isinstance(sa, ast.Call) and call_name(sa) == 'dict':
+                    got = {k.arg: unparse(k.value) for k in sa.keywords}
+                elif isinstance(sa, ast.Dict):
+                    got = {(k.value if isinstance(k, ast.Constant) else unparse(k)): unparse(v2)
+                           for k, v2 in zip(sa.keys, sa.values)}
         ctx.decide('R10b', f is not None and got == want, wb, f or wb.cls('LatexWalkerParsingStateEventHandler'),
                    '%s -> %s' % (ev, want), 'event %s sets %s (expected %s)' % (ev, got, want),
                    construct='event handler ' + ev)
@@ -272,12 +301,17 @@ def run(ctx):
                    '%s does not fire the handler event %s with its arguments' % (cls, ev),
                    construct=cls + ' event')
     we = dm.methods('ParsingStateDeltaWalkerEvent').get('get_updated_parsing_state')
-    t = unparse(we) if we is not None else ''
-    ok = 'getattr(handler, self.walker_event_name)' in t and 'handler_fn(**self.walker_event_kwargs)' in t \
-        and 'get_updated_parsing_state_from_delta(parsing_state, parsing_state_delta, latex_walker)' in t
-    ctx.decide('R10b', ok, dm, we or dm.cls('ParsingStateDeltaWalkerEvent'),
+    if we is None:
+        raise AnalysisError('anchor vanished: ParsingStateDeltaWalkerEvent.get_updated_parsing_state')
+    wp_ = [a.arg for a in we.args.args]
+    want_txt = ('get_updated_parsing_state_from_delta(%s, getattr(%s.parsing_state_event_handler(), '
+                'self.walker_event_name)(**self.walker_event_kwargs), %s)' % (wp_[1], wp_[2], wp_[2]))
+    rcs = symex.return_cases(we)
+    got_txt = [unparse(symex.expand(c.sub, c.env, depth=6)) for c in rcs]
+    ctx.decide('R10b', bool(rcs) and all(g == want_txt for g in got_txt), dm, we,
                'event resolved on the walker\'s handler and applied to the given state',
-               'ParsingStateDeltaWalkerEvent does not apply the handler\'s delta to the state it is given',
+               'ParsingStateDeltaWalkerEvent does not apply the handler\'s delta to the state it is '
+               'given: returns %s' % (got_txt[:1]),
                construct='ParsingStateDeltaWalkerEvent.get_updated_parsing_state')
 
     # R10c
@@ -313,21 +347,39 @@ def run(ctx):
     mr = tr.methods('LatexTokenReader').get('impl_maybe_read_math_mode_delimiter')
     if mr is None:
         raise AnalysisError('anchor vanished: impl_maybe_read_math_mode_delimiter')
-    loops = [l for l in iter_own(mr) if isinstance(l, ast.For)]
-    ifs = [i for i in mr.body if isinstance(i, ast.If) and unparse(i.test) == 'parsing_state.in_math_mode']
-    ok = len(loops) == 1 and len(ifs) == 1 and ifs[0].lineno < loops[0].lineno and \
-        '_math_all_delims_by_len' in unparse(loops[0].iter)
+    loops = [l for l in iter_own(mr) if isinstance(l, ast.For) and '_math_all_delims_by_len' in unparse(l.iter)]
+    psn = [a.arg for a in mr.args.args if 'parsing_state' in a.arg]
+    psn = psn[0] if psn else 'parsing_state'
+    info = psn + '._math_expecting_close_delim_info'
+    closers, why = [], None
+    for cs in symex.sink_cases(mr, lambda c: call_name(c) == 'make_token'):
+        a_, t_ = kwarg(cs.sub, 'arg'), kwarg(cs.sub, 'tok')
+        if a_ is None or t_ is None:
+            continue
+        ax, tx = unparse(symex.expand(a_, cs.env)), unparse(symex.expand(t_, cs.env))
+        if ax.replace('"', "'") != info + "['close_delim']":
+            continue
+        closers.append(cs)
+        facts = set()
+        for c_, pol in cs.conds:
+            for a2, ap in symex._atoms(c_, pol):
+                facts.add((unparse(symex.expand(a2, cs.env)).replace('"', "'"), ap))
+        if tx.replace('"', "'") != info + "['tok']":
+            why = 'the closing token has kind %s, not the kind recorded with the expected closer' % tx
+        elif (psn + '.in_math_mode', True) not in facts:
+            why = 'the expected closer is looked for outside math mode'
+        elif not any(ap and f_.startswith('s.startswith(' + info + "['close_delim']") for f_, ap in facts):
+            why = 'the closing token is emitted without testing that the input continues with the expected closer'
+    if not closers:
+        why = 'no token is built from the expected closing delimiter'
+    ctx.decide('R10d', why is None, tr, closers[0].node if closers else mr,
+               'closing token emitted only when the input continues with the expected closer',
+               'impl_maybe_read_math_mode_delimiter: %s' % why,
+               construct='impl_maybe_read_math_mode_delimiter: closer')
+    ok = len(loops) == 1 and bool(closers) and all(c.node.lineno < loops[0].lineno for c in closers)
     ctx.decide('R10d', ok, tr, mr, 'expected closer tested first, then all delimiters longest-first',
                'the expected closing delimiter is not tested before the generic delimiter scan',
                construct='impl_maybe_read_math_mode_delimiter: order')
-    rets = [r for r in ast.walk(ifs[0]) if isinstance(r, ast.Return)] if ifs else []
-    ok = bool(rets) and all(any(pol and 'startswith(expecting_close_delim, pos)' in unparse(t)
-                                for t, pol in atomic_facts(r)) for r in rets) and \
-        all('tok=expecting_close_tok' in unparse(r) and 'arg=expecting_close_delim' in unparse(r) for r in rets)
-    ctx.decide('R10d', ok, tr, ifs[0] if ifs else mr,
-               'closing token emitted only when the input continues with the expected closer',
-               'the in-math branch does not emit (expected kind, expected closer) exactly when the '
-               'input starts with the expected closer', construct='impl_maybe_read_math_mode_delimiter: closer')
     psm = repo.mod(PS)
     fm = psm.methods('ParsingState').get('_finalize_state_latex_math_delim_info')
     t = unparse(fm) if fm is not None else ''
@@ -397,11 +449,34 @@ def run(ctx):
                                '%s returns %s' % (q, v), construct='%s: %s' % (q, short(r, 60)))
     co = repo.mod(COLL)
     mc = co.methods('LatexNodesCollector').get('make_child_parsing_state')
-    t = unparse(mc) if mc is not None else ''
-    ok = 'return self.parsing_state' in t and 'self._make_child_parsing_state_fn(parsing_state=parsing_state' in t
-    ctx.decide('R10g', ok, co, mc or co.cls('LatexNodesCollector'),
+    if mc is None:
+        raise AnalysisError('anchor vanished: LatexNodesCollector.make_child_parsing_state')
+    why = None
+    rcs = symex.return_cases(mc)
+    n_plain = n_fn = 0
+    for cs in rcs:
+        v = cs.sub
+        facts = set()
+        for t_, pol in cs.conds:
+            for a, ap in symex._atoms(t_, pol):
+                facts.add((unparse(a), ap))
+        nofn = ('self._make_child_parsing_state_fn is None', True) in facts or \
+            ('self._make_child_parsing_state_fn is not None', False) in facts
+        if nofn:
+            n_plain += 1
+            if unparse(v) != 'self.parsing_state':
+                why = 'without a factory the child state is %s, not the collector\'s current state' % short(v)
+        else:
+            n_fn += 1
+            ps = kwarg(v, 'parsing_state') if isinstance(v, ast.Call) else None
+            if not (isinstance(v, ast.Call) and unparse(v.func) == 'self._make_child_parsing_state_fn'
+                    and ps is not None and unparse(ps) == mc.args.args[1].arg):
+                why = 'with a factory the child state is %s, not the factory applied to the given state' % short(v)
+    if why is None and not (n_plain and n_fn):
+        why = 'the two cases (factory / no factory) are not distinguished'
+    ctx.decide('R10g', why is None, co, mc,
                'children inherit the collector\'s current state unless a factory is given',
-               'the collector does not hand its current parsing state to children',
+               'the collector does not hand its current parsing state to children: %s' % why,
                construct='LatexNodesCollector.make_child_parsing_state')
 
     # R10h
